@@ -522,7 +522,13 @@ def write_meta_data(md, md_file):
     with open(md_file, "w") as fid:
         for key, val in md.items():
             if isinstance(val, list):
-                val = ",".join([str(int(v)) for v in val])
+                # whole numbers as integers, any other number with its decimals (never truncated)
+                val = ",".join(
+                    [
+                        str(int(v)) if float(v).is_integer() else np.format_float_positional(v, trim="-")
+                        for v in val
+                    ]
+                )
             if isinstance(val, float):
                 if val.is_integer():
                     val = int(val)
